@@ -23,5 +23,8 @@ def run(ctx):
         ctx.guard(case_taint_rule, ctx, "C18.case-taint", records)
     from ..rules_misc import k21_match_overrides
     ctx.guard(k21_match_overrides, ctx, "C18")
+    # the typing query: the answer is the first candidate whose (case-insensitive) is_valid() accepts, nothing else is asked
+    from ..rules_misc import characterize_rule
+    ctx.guard(characterize_rule, ctx, "C18.characterize")
     from ..rules_misc import text_consumers_rule
     ctx.guard(text_consumers_rule, ctx, "C18.text-consumers")
